@@ -2,20 +2,26 @@
 
 Theorems: coq/theories/Properties/C18.v about Hist/Reuse.v (store of constraint
 objects with the mutable fields the code has; `build` = what constructing a block
-writes into shared objects and which geometry each constraint ends up using).
+does to the store - since /repo commit 88b3d0f: private copies as new entries, the
+argument objects are never written - and which geometry each constraint ends up using).
 
 Correspondence
-  * write-set: harness/writeset.py on the five block constructors; every store into
-    an object reachable from the arguments must be one the model declares
-    (`(writes18)`), a store into the block under construction, or a listed analyser
-    over-approximation; unrecognised constructs are a broken tie.
+  * write-set: harness/writeset.py on the five block constructors; every attribute
+    store it finds must be one the model declares (`(writes18)`: within_block,
+    max_trials_required, k, trials of constraint objects - which the code writes on the
+    copies it makes; the static analyser cannot tell a shallow copy from its original,
+    the dynamic layers below can), a store into the block under construction, or a
+    listed analyser over-approximation; unrecognised constructs are a broken tie.
   * stores: generated families of 2-3 block constructions that share factor and
     constraint objects, built with the real constructors one block at a time in
-    every dependency-respecting order; after every construction the fields of every
-    user constraint object and of every copy made by Nest (within_block, k / index,
-    trials, max_trials_required) and the view of the new block's orig_constraints are
-    compared with the model's store and summary; the twin summary of the model is
-    compared with the real block built from fresh objects.
+    every dependency-respecting order; after every construction (a) the fields
+    (within_block, k / index, trials, max_trials_required) of every user constraint
+    object are compared with the model's store and their attribute dictionaries with a
+    snapshot taken at creation (never written), (b) the new block's orig_constraints -
+    which must be new objects - with the model's new store entries and summary, (c) at
+    the end, the orig_constraints of every earlier block with what they were right after
+    its construction; the twin summary of the model is compared with the real block
+    built from fresh objects.
 Search (the property itself, on the real code): per block, shared-objects build vs
 fresh-objects build (ir.build(program, only_blocks=[block] + dependencies)): flat
 record, exhausted IterateSATGen name-level solution set, sample_mismatch_experiment
@@ -301,6 +307,8 @@ def build_stepwise(program, observe=None):
             built.factors[f["id"]] = ir.build_factor(built, program, f)
         for c in program.get("constraints", []):
             built.constraints[c["id"]] = ir.build_constraint(built, program, c)
+        built.c18_snapshot = [{k: id(v) for k, v in vars(built.constraints[c["id"]]).items()}
+                              for c in program.get("constraints", [])]
         for b in program["blocks"]:
             try:
                 built.blocks[b["id"]] = ir.build_block(built, program, b)
@@ -483,12 +491,15 @@ def run_order(program, order, stats):
     bpos = {b["id"]: i for i, b in enumerate(order)}
     fmap = FactorNames()
     steps = []
-    real_store = []      # user objects, then the copies Nest makes, in creation order
+    users = []           # the user's constraint objects, in program order
+    snapshot = []        # their attribute dictionaries right after creation (attribute -> identity of the value)
     descs = []
+    at_build = {}        # block id -> fields of its orig_constraints right after its construction
 
     def observe(built, b):
-        if not real_store:
-            real_store.extend(built.constraints[c["id"]] for c in p["constraints"])
+        if not users:
+            users.extend(built.constraints[c["id"]] for c in p["constraints"])
+            snapshot.extend(built.__dict__.setdefault("c18_snapshot", []))
         blk = built.blocks.get(b["id"])
         if blk is None:
             steps.append(None)
@@ -510,16 +521,58 @@ def run_order(program, order, stats):
             with ir.quiet():
                 inner_len = inner.trials_per_sample() - inner.common_preamble_size()
             kind = [common.Atom("nest"), bpos[b["outer"]], bpos[b["inner"]], int(inner_len)]
-            real_store.extend(blk.orig_constraints[:len(outer.orig_constraints)])
         copied = [not any(c is x for x in blk.constraints) for c in blk.orig_constraints]
         descs.append([kind, geom_wire(blk, g, fmap), cs, copied])
-        steps.append({"store": [canon(obj_fields(c, fmap)) for c in real_store],
+        at_build[b["id"]] = [canon(obj_fields(c, fmap)) for c in blk.orig_constraints]
+        steps.append({"users": [canon(obj_fields(c, fmap)) for c in users],
+                      "users_untouched": [{k: id(v) for k, v in vars(c).items()} for c in users] == snapshot,
+                      "entries": at_build[b["id"]],
+                      "copies_are_new": not any(c is u for c in blk.orig_constraints for u in users),
                       "summary": [canon(obj_fields(c, fmap)[:4]) for c in blk.orig_constraints],
                       "desugared": sorted(set(json.dumps(canon(obj_fields(c, fmap)[:3])) for c in blk.constraints
                                               if KIND.get(type(c).__name__) in ("atmost", "atleast", "exactlyk", "exactlyrow", "pin")))})
     built = build_stepwise(p, observe)
+    # nothing built later may have touched the constraints of an earlier block
+    final = {bid: [canon(obj_fields(c, fmap)) for c in built.blocks[bid].orig_constraints] for bid in at_build}
+    for st, b in zip(steps, order):
+        if st is not None:
+            st["unchanged_later"] = final[b["id"]] == at_build[b["id"]]
     line = "(hist18 %s %s)" % (common.sexp(user_objects(p)), common.sexp(descs))
     return p, built, steps, descs, line, fmap
+
+
+def copy_barrier(root):
+    """Static side of 'the argument objects are never written': _create rebinds its `constraints` parameter to
+    shallow copies before anything else reads it, and Nest copies the outer block's orig_constraints before
+    sustain_within_block.  Returns the list of missing barriers."""
+    import ast
+    import os
+    tree = ast.parse(open(os.path.join(root, "sweetpea", "_internal", "cross_block.py")).read())
+    missing = []
+
+    def is_copy_comp(v, src):
+        return (isinstance(v, ast.ListComp) and isinstance(v.elt, ast.Call) and ast.unparse(v.elt.func) in ("copy.copy", "copy")
+                and len(v.generators) == 1 and ast.unparse(v.generators[0].iter) == src
+                and isinstance(v.elt.args[0], ast.Name) and ast.unparse(v.generators[0].target) == v.elt.args[0].id)
+    for cls in [n for n in tree.body if isinstance(n, ast.ClassDef)]:
+        for fn in [n for n in cls.body if isinstance(n, ast.FunctionDef)]:
+            if cls.name == "MultiCrossBlockRepeat" and fn.name == "_create":
+                ok = False
+                for st in fn.body:
+                    if isinstance(st, ast.Assign) and len(st.targets) == 1 and ast.unparse(st.targets[0]) == "constraints" \
+                            and is_copy_comp(st.value, "constraints"):
+                        ok = True
+                        break
+                    if any(isinstance(x, ast.Name) and x.id == "constraints" for x in ast.walk(st)):
+                        break      # used before being copied
+                if not ok:
+                    missing.append("_create: constraints = [copy.copy(ct) for ct in constraints]")
+            if cls.name == "Nest" and fn.name == "__init__":
+                src = ast.unparse(fn)
+                if not any(isinstance(st, ast.Assign) and is_copy_comp(st.value, "outer_block.orig_constraints")
+                           for st in ast.walk(fn)) or "sustain_within_block" not in src:
+                    missing.append("Nest.__init__: copies of outer_block.orig_constraints before sustain_within_block")
+    return missing
 
 
 def check_writeset(ctx, res):
@@ -539,7 +592,14 @@ def check_writeset(ctx, res):
                             "unrecognised": rep.unrecognised[:20]}
     res.layer("writeset:recognised", not rep.unrecognised)
     res.layer("writeset:declared", not undeclared)
+    missing = copy_barrier(root)
+    res.extra["writeset"]["copy_barriers_missing"] = missing
+    res.layer("writeset:copy-barrier", not missing)
     problems = []
+    if missing:
+        problems.append(Violation("corr:writeset-copy-barrier", "the constructors no longer copy the constraint objects they are "
+                                  "given before writing them: %s" % missing, {"layer": "writeset", "missing": missing},
+                                  failing_input=False))
     if rep.unrecognised:
         problems.append(Violation(
             "corr:writeset-unrecognised",
@@ -696,20 +756,33 @@ def run(ctx, res):
         line = next(it)
         twin_lines = [next(it) for _ in p["blocks"]]
         if line.startswith("!"):
-            res.layer("store:after-build", False)
+            res.layer("store:user-objects-after-build", False)
             corr_bad.append((name, p, "model failed: " + line[:100]))
             continue
         parsed = common.parse_sexp(line)
         for i, (b, real, m) in enumerate(zip(p["blocks"], steps, parsed)):
-            msum, mstore = m
+            msum, mstore, mentries = m
             if real is None:
                 continue       # constructor rejected (design reasons outside this model); the model skipped too
-            mstore = canon(mstore)
-            ok = mstore == real["store"]
-            res.layer("store:after-build", ok)
+            musers = canon(mstore)[:len(real["users"])]
+            ok = musers == real["users"] and real["users_untouched"]
+            res.layer("store:user-objects-after-build", ok)
             if not ok:
-                corr_bad.append((name, p, "store after building block %d: real %s model %s" % (
-                    b["id"], json.dumps(real["store"])[:300], json.dumps(mstore)[:300])))
+                corr_bad.append((name, p, "user constraint objects after building block %d: real %s (attribute dictionaries "
+                                 "untouched: %s) model %s" % (b["id"], json.dumps(real["users"])[:300], real["users_untouched"],
+                                                             json.dumps(musers)[:300])))
+                break
+            ok = canon(mentries) == real["entries"] and real["copies_are_new"]
+            res.layer("store:new-block-copies", ok)
+            if not ok:
+                corr_bad.append((name, p, "orig_constraints of block %d right after its construction: real %s (new objects: %s) "
+                                 "model %s" % (b["id"], json.dumps(real["entries"])[:300], real["copies_are_new"],
+                                               json.dumps(canon(mentries))[:300])))
+                break
+            ok = real["unchanged_later"]
+            res.layer("store:earlier-blocks-unchanged", ok)
+            if not ok:
+                corr_bad.append((name, p, "the constraints of block %d were changed by a later construction" % b["id"]))
                 break
             ms = None if msum == "none" else canon(msum)
             ok = ms == real["summary"]
@@ -772,7 +845,8 @@ def run(ctx, res):
         tie.append(Violation("corr:store", "model Hist/Reuse.v and the real constructors disagree on %d build sequences, e.g. "
                              "%s: %s" % (len(corr_bad), name, why),
                              {"layer": "store", "program": p, "why": why,
-                              "theorems": ["C18_build_history_independent_guarded", "C18_reuse_refuted"]}, failing_input=False))
+                              "theorems": ["C18_build_history_independent", "C18_shared_equals_fresh",
+                                           "C18_user_objects_never_written"]}, failing_input=False))
     res.violations.extend(tie)
     res.extra["distribution"] = dict(sorted(stats.items()))
     res.notes.append("a flat-record difference without a difference in the exhausted solution set or in a mismatch verdict "
